@@ -239,6 +239,10 @@ def _directed():
             yield mk_case(lens, rs)
             for cs in [slice(None), slice(None, None, -1), slice(1, None), slice(None, -1, 2), slice(-1, None, -2)]:
                 yield mk_case(lens, rs, cs, True)
+    hl = [(i * 7) % 3 for i in range(130001)]       # more than 100000 rows
+    yield mk_case(hl, np.array([i % 5 != 2 for i in range(130001)]))
+    yield mk_case(hl, slice(None, None, 1), slice(None, None, -1), True)
+    yield mk_case(hl, np.arange(130000, 0, -1))
     yield mk_case([], [])
     yield mk_case([], np.zeros(0, dtype=bool))
     yield mk_case([], 0)   # refuse
